@@ -79,7 +79,10 @@ func genC01(c *Ctx) {
 			i := 0
 			t := label(sh, simplePool, &i)
 			ls := uniq(t.leaves())
-			for style := 0; style < 2; style++ {
+			for _, style := range []int{0, 1, 3, 4} {
+				if style >= 3 && n > 4 && !c.thorough() {
+					continue
+				}
 				expr := t.render(style, c.rng)
 				c.count(fmt.Sprintf("trees_leaves_%d", n))
 				for _, A := range subsets(ls) {
@@ -104,7 +107,7 @@ func genC01(c *Ctx) {
 				if len(cand) > 4 {
 					cand = cand[:4]
 				}
-				expr := t2.render(c.rng.Intn(3), c.rng)
+				expr := t2.render(c.rng.Intn(5), c.rng)
 				for _, A := range subsets(cand) {
 					c.checkBoolean(t2, expr, A)
 				}
@@ -133,7 +136,7 @@ func genC01(c *Ctx) {
 		if len(cand) > 4 {
 			cand = cand[:4]
 		}
-		expr := t.render(c.rng.Intn(3), c.rng)
+		expr := t.render(c.rng.Intn(5), c.rng)
 		c.count("related_leaf_trees")
 		for _, A := range subsets(cand) {
 			c.checkBoolean(t, expr, A)
@@ -152,7 +155,7 @@ func genC01(c *Ctx) {
 		}
 		i := 0
 		t := label(sh, lab, &i)
-		expr := t.render(c.rng.Intn(3), c.rng)
+		expr := t.render(c.rng.Intn(5), c.rng)
 		c.count("deep_trees")
 		for q := 0; q < 4; q++ {
 			var A []string
@@ -784,7 +787,7 @@ func genC06(c *Ctx) {
 				}
 				i := 0
 				t := label(sh, lab, &i)
-				checkTree(t, t.render(c.rng.Intn(3), c.rng))
+				checkTree(t, t.render(c.rng.Intn(5), c.rng))
 			}
 		}
 	}
@@ -807,7 +810,7 @@ func genC06(c *Ctx) {
 		}
 		i := 0
 		t := label(sh, lab, &i)
-		checkTree(t, t.render(c.rng.Intn(3), c.rng))
+		checkTree(t, t.render(c.rng.Intn(5), c.rng))
 	}
 	// every listed license id alone: canonical casing is the list's own
 	for _, x := range append(append([]string{}, tActive...), tDeprec...) {
